@@ -57,6 +57,10 @@ type Solver struct {
 	XUnknown  int
 	XDisagree []string
 	xcount    int
+
+	modelArgv               []string // solver that decided the last check after a retry
+	Retries, RetriesDecided int
+	RetryTime               time.Duration
 }
 
 // New starts a solver. argv e.g. {"z3","-in","-t:10000"}.
@@ -207,6 +211,11 @@ func (s *Solver) readLine() (string, error) {
 // Check runs (check-sat) under the current assertions.
 func (s *Solver) Check() Result {
 	r := s.check()
+	if r == Unknown && s.SawErr == "" && s.Errors == 0 {
+		// a time-out (often only machine load): decide the same assertion stack again with a
+		// fresh process and a longer limit, then with the other z3 release
+		r = s.retry()
+	}
 	if s.XEvery > 0 && r != Unknown {
 		s.xcount++
 		if s.xcount == 5 || s.xcount == 50 || s.xcount%s.XEvery == 0 {
@@ -214,6 +223,28 @@ func (s *Solver) Check() Result {
 		}
 	}
 	return r
+}
+
+// retry re-decides the current assertion stack after an unknown answer.
+func (s *Solver) retry() Result {
+	s.Retries++
+	save := s.argv
+	defer func() { s.argv = save }()
+	s.modelArgv = nil
+	for _, argv := range [][]string{{"z3", "-t:120000"}, {"z3-new", "-t:120000"}} {
+		s.argv = argv
+		s.Unknowns--
+		t0 := time.Now()
+		r, _ := s.oneShot("")
+		s.RetryTime += time.Since(t0)
+		if r != Unknown {
+			s.RetriesDecided++
+			s.lastOneShot = true
+			s.modelArgv = argv
+			return r
+		}
+	}
+	return Unknown
 }
 
 // crossCheck re-decides the current assertion stack with the other solvers.
@@ -259,6 +290,7 @@ func (s *Solver) crossCheck(r Result) {
 }
 
 func (s *Solver) check() Result {
+	s.modelArgv = nil
 	if s.OneShotMin > 0 && s.nlines >= s.OneShotMin {
 		s.lastOneShot = true
 		r, _ := s.oneShot("")
@@ -413,14 +445,18 @@ func (s *Solver) oneShot(getValue string) (Result, string) {
 	}
 	w.Flush()
 	f.Close()
+	use := s.argv
+	if getValue != "" && s.modelArgv != nil {
+		use = s.modelArgv
+	}
 	argv := []string{}
-	for _, a := range s.argv[1:] {
+	for _, a := range use[1:] {
 		if a != "-in" {
 			argv = append(argv, a)
 		}
 	}
 	argv = append(argv, f.Name())
-	out, _ := exec.Command(s.argv[0], argv...).Output()
+	out, _ := exec.Command(use[0], argv...).Output()
 	text := string(out)
 	if strings.Contains(text, "(error") {
 		s.SawErr = text
